@@ -94,7 +94,8 @@ Inductive oof :=
 | OofFuncSpecialName      (* a name explainFunctionCall treats specially *)
 | OofNegFloat             (* printer: negated integer literal > 2^63 *)
 | OofNilSubquery          (* printer: Subquery whose Query is a nil pointer: header without child *)
-| OofNotATree.            (* printer: a nested query whose lines are not one tree *)
+| OofNotATree             (* printer: a nested query whose lines are not one tree *)
+| OofPrinterFragment.     (* parse_statement: accepted, but outside the printer model ([printable] = false) *)
 
 Inductive res (A : Type) :=
 | Ok (a : A)
@@ -386,6 +387,28 @@ Definition parse_implicit_alias (e : option expr) (s : st) : R (option expr) :=
 Definition PE := N -> st -> R (option expr).
 Definition PSU := st -> R (option query).
 
+(* parseExpressionList — expression.go:105-134; the comma loop *)
+Fixpoint expr_list_loop (pe : PE) (fuel : nat) (acc : list expr) (s : st) : R (list expr) :=
+  match fuel with
+  | O => OutOfFuel
+  | S f =>
+      if cur_is s T_COMMA then
+        let s1 := next s in
+        if is_clause_keyword s1 then ret acc s1
+        else
+          bind (pe LOWEST s1) (fun '(e, s2) =>
+          bind (parse_implicit_alias e s2) (fun '(e', s3) =>
+          expr_list_loop pe f (match e' with Some x => acc ++ [x] | None => acc end) s3))
+      else ret acc s
+  end.
+
+Definition parse_expression_list (pe : PE) (fuel : nat) (s : st) : R (list expr) :=
+  if cur_is s T_RPAREN || cur_is s T_EOF then ret [] s
+  else
+    bind (pe LOWEST s) (fun '(e, s1) =>
+    bind (parse_implicit_alias e s1) (fun '(e', s2) =>
+    expr_list_loop pe fuel (match e' with Some x => [x] | None => [] end) s2)).
+
 (* parseNumber — plain decimal integers below 2^64; the state is at the NUMBER *)
 Definition parse_number (s : st) : R (option expr) :=
   let value := cur_val s in
@@ -523,6 +546,30 @@ Definition parse_keyword_as_identifier (s : st) : R (option expr) :=
   | DParts parts rest => ret (Some (EIdent parts [] false)) (mkSt rest (errs s1))
   end.
 
+(* parseKeywordAsFunction — expression.go:2822-2892; the state is at the keyword, "(" follows *)
+Definition parse_keyword_as_function (pe : PE) (fuel : nat) (s : st) : R (option expr) :=
+  let name := cur_val s in
+  let '(ok, s1) := expect T_LPAREN (next s) in
+  if negb ok then ret None s1
+  else if cur_is s1 T_DISTINCT && negb (peek_is s1 T_RPAREN) && negb (peek_is s1 T_COMMA)
+  then OutOfFragment OofFuncDistinct
+  else
+    let s2 := if cur_is s1 T_ALL && negb (peek_is s1 T_RPAREN) && negb (peek_is s1 T_COMMA)
+              then next s1 else s1 in
+    if bytes_eqb name s_view && (cur_is s2 T_SELECT || cur_is s2 T_WITH)     (* name == "view" *)
+    then OutOfFragment OofFuncView
+    else
+      bind (if negb (cur_is s2 T_RPAREN) then parse_expression_list pe fuel s2 else ret [] s2)
+           (fun '(args, s3) =>
+      let '(_, s4) := expect T_RPAREN s3 in
+      if cur_is s4 T_IDENT && negb (ascii_only (cur_val s4)) then OutOfFragment OofNonAscii
+      else if cur_is s4 T_IDENT &&
+              mem_bytes (to_upper (cur_val s4)) [s_IGNORE; s_RESPECT] then OutOfFragment OofFuncNulls
+      else if cur_is s4 T_IDENT && bytes_eqb (to_upper (cur_val s4)) s_FILTER
+      then OutOfFragment OofFuncFilter
+      else if cur_is s4 T_OVER then OutOfFragment OofFuncOver
+      else ret (Some (EFunc name args [])) s4).
+
 (* parseUnaryMinus — expression.go:1131-1199; the state is at "-" *)
 Definition parse_unary_minus (pe : PE) (s : st) : R (option expr) :=
   let s1 := next s in
@@ -593,7 +640,7 @@ Definition parse_prefix (pe : PE) (psu : PSU) (fuel : nat) (s : st) : R (option 
     if peek_is s T_LPAREN then OutOfFragment OofPrefixSpecial else parse_keyword_as_identifier s
   else if t =? T_IF then OutOfFragment OofPrefixSpecial
   else if is_keyword t then
-    if peek_is s T_LPAREN then OutOfFragment OofKeywordFunction
+    if peek_is s T_LPAREN then parse_keyword_as_function pe fuel s
     else parse_keyword_as_identifier s
   else ret None s.                                                                    (* return nil *)
 
@@ -687,28 +734,6 @@ Definition precedence_for_current (s : st) : N :=
 (* ------------------------------------------------------------------------------------------ *)
 (** * Lists *)
 
-(* parseExpressionList — expression.go:105-134; the comma loop *)
-Fixpoint expr_list_loop (pe : PE) (fuel : nat) (acc : list expr) (s : st) : R (list expr) :=
-  match fuel with
-  | O => OutOfFuel
-  | S f =>
-      if cur_is s T_COMMA then
-        let s1 := next s in
-        if is_clause_keyword s1 then ret acc s1
-        else
-          bind (pe LOWEST s1) (fun '(e, s2) =>
-          bind (parse_implicit_alias e s2) (fun '(e', s3) =>
-          expr_list_loop pe f (match e' with Some x => acc ++ [x] | None => acc end) s3))
-      else ret acc s
-  end.
-
-Definition parse_expression_list (pe : PE) (fuel : nat) (s : st) : R (list expr) :=
-  if cur_is s T_RPAREN || cur_is s T_EOF then ret [] s
-  else
-    bind (pe LOWEST s) (fun '(e, s1) =>
-    bind (parse_implicit_alias e s1) (fun '(e', s2) =>
-    expr_list_loop pe fuel (match e' with Some x => [x] | None => [] end) s2)).
-
 (* parseOrderByList — parser.go:1810-1890 *)
 Fixpoint order_by_loop (pe : PE) (fuel : nat) (acc : list order_elem) (s : st) : R (list order_elem) :=
   match fuel with
@@ -801,6 +826,90 @@ Fixpoint has_mode_transition (modes : list (list N)) : bool :=
 (* groupSelectsByUnionMode would build a nested query *)
 Definition would_group {A} (selects : list A) (modes : list (list N)) : bool :=
   negb (Nat.ltb (List.length selects) 3 || Nat.ltb (List.length modes) 2) && has_mode_transition modes.
+
+(* ------------------------------------------------------------------------------------------ *)
+(** * The boundary of the PRINTER model, as a predicate on the AST
+
+   [printable] is true iff SelectPrintModel covers the statement: what it excludes is printed by the
+   Go code without any problem, only the printer model has no transcription for it
+   (sanitizeUTF8 of exotic identifier bytes, JSON-path parts, float formatting of a negated
+   integer above 2^63, function names with their own printer, "(children 0)" inside a Subquery,
+   groupSelectsByUnionMode nesting, the header-without-child of a Subquery whose query pointer is nil).
+   It does NOT speak about nil *ast.SelectQuery members: those are a safety matter (the Go printer
+   would panic), proved absent in SelectCoreProof.v, not filtered. *)
+
+Definition parts_ok (parts : list (list N)) : bool :=
+  match parts with
+  | [] => true
+  | p :: r => ident_part_ok p && forallb later_part_ok r
+  end.
+
+Definition neg_float (op : unop) (operand : option expr) : bool :=
+  match op, operand with
+  | UMinus, Some (ELit (LUInt64 v) _) => 9223372036854775808 <? v
+  | _, _ => false
+  end.
+
+Definition is_nil {A} (l : list A) : bool := match l with [] => true | _ => false end.
+
+Fixpoint printable_expr (e : expr) : bool :=
+  match e with
+  | EIdent parts _ _ => parts_ok parts
+  | ELit _ _ => true
+  | EUnary op operand =>
+      negb (neg_float op operand) &&
+      match operand with Some x => printable_expr x | None => true end
+  | EBinary _ l r _ =>
+      printable_expr l && match r with Some x => printable_expr x | None => true end
+  | EFunc name args _ =>
+      ascii_only name && negb (function_is_special name args) &&
+      (fix go (l : list expr) : bool :=
+         match l with [] => true | x :: r => printable_expr x && go r end) args
+  | ESubquery q _ =>
+      match q with Some q' => printable_query true q' | None => false end
+  | EAsterisk _ => true
+  | EAliased e' _ => printable_expr e'
+  end
+with printable_query (sub : bool) (q : query) : bool :=
+  match q with
+  | Query selects modes _ =>
+      negb (would_group selects modes) && negb (sub && is_nil selects) &&
+      (fix go (l : list (option select)) : bool :=
+         match l with
+         | [] => true
+         | Some x :: r => printable_select sub x && go r
+         | None :: r => go r
+         end) selects
+  end
+with printable_select (sub : bool) (s : select) : bool :=
+  match s with
+  | Select _ columns from where_ group_by having order_by limit offset =>
+      let exprs := fix go (l : list expr) : bool :=
+        match l with [] => true | x :: r => printable_expr x && go r end in
+      let opt := fun (o : option expr) => match o with Some x => printable_expr x | None => true end in
+      negb (sub && is_nil columns) && exprs columns &&
+      match from with
+      | None => true
+      | Some elems =>
+          (fix go (l : list table_elem) : bool :=
+             match l with [] => true | x :: r => printable_table x && go r end) elems
+      end &&
+      opt where_ && exprs group_by && opt having &&
+      (fix go (l : list order_elem) : bool :=
+         match l with [] => true | x :: r => printable_order x && go r end) order_by &&
+      opt limit && opt offset
+  end
+with printable_table (t : table_elem) : bool :=
+  match t with
+  | TableElem (Some (TSSubquery (Some q))) _ => printable_query true q
+  | TableElem (Some (TSSubquery None)) _ => false
+  | TableElem _ _ => true
+  end
+with printable_order (o : order_elem) : bool :=
+  match o with
+  | OrderElem (Some x) _ => printable_expr x
+  | OrderElem None _ => true
+  end.
 
 (* ------------------------------------------------------------------------------------------ *)
 (** * The recursive core *)
@@ -1037,12 +1146,26 @@ Section Core.
 
   (* parseStatement / parseStatementByKeyword — parser.go:215-366.  The reflect test of
      parseStatement maps the nil pointer (None) to the nil Statement (None). *)
-  Definition parse_statement (fuel : nat) (s : st) : R (option query) :=
+  Definition parse_statement_raw (fuel : nat) (s : st) : R (option query) :=
     let t := cur_tok s in
-    if t =? T_SELECT then parse_select_with_union fuel false s
+    if t =? T_SELECT then parse_select_with_union fuel s
     else if t =? T_LPAREN then parse_parenthesized_select fuel s
     else if tok_in t other_statement_tokens then OutOfFragment OofStatementKind
     else ret None (next (add_err (ErrUnexpected t) s)).
+
+  (* the statement of the fragment: the parser's result, declined when it was accepted (no error so
+     far) but lies outside the printer model *)
+  Definition printer_check (r : option query * st) : R (option query) :=
+    let '(q, s) := r in
+    match q with
+    | Some q' =>
+        if is_nil (errs s) && negb (printable_query false q') then OutOfFragment OofPrinterFragment
+        else Ok (q, s)
+    | None => Ok (q, s)
+    end.
+
+  Definition parse_statement (fuel : nat) (s : st) : R (option query) :=
+    bind (parse_statement_raw fuel s) printer_check.
 End Core.
 
 (* ------------------------------------------------------------------------------------------ *)
@@ -1157,6 +1280,7 @@ Definition oof_name (r : oof) : list N :=
   | OofNegFloat => "neg-float"
   | OofNilSubquery => "nil-subquery"
   | OofNotATree => "not-a-tree"
+  | OofPrinterFragment => "printer-fragment"
   end)%string.
 
 Definition psite_name (p : psite) : list N :=
